@@ -576,11 +576,19 @@ pub fn drive<H: Host>(scn: &Scenario, world: &Arc<World>, host: &mut H, inputs: 
             to_poll = Some((woken[pref % woken.len()], false));
         } else if qlen > 0 {
             do_advance = true;
+        } else if { let hung = world.hung_tasks(); !hung.is_empty() && live_ids.iter().all(|t| hung.contains(t)) } {
+            // only evaluations parked in a call that never completes are left: the run is over
+            break;
         } else if pick.spurious {
             to_poll = Some((live_ids[pref % live_ids.len()], true));
         } else {
-            // live tasks, none woken, no event outstanding, no startable task: nobody will ever wake them
-            lost = Some(live_ids[0]);
+            // live tasks, none woken, no event outstanding, no startable task: nobody will ever wake them.
+            // Tasks parked in a call that never completes *by plan* are expected to sit there; any other
+            // task in that position has lost its wake-up
+            let hung = world.hung_tasks();
+            if let Some(t) = live_ids.iter().copied().find(|t| !hung.contains(t)) {
+                lost = Some(t);
+            }
             break;
         }
         step += 1;
@@ -670,7 +678,9 @@ pub fn drive<H: Host>(scn: &Scenario, world: &Arc<World>, host: &mut H, inputs: 
             world.set_current(Some((t, scn.tasks[t].tag)));
             host.drop_task(t);
             world.set_current(None);
-            let why = if lost.is_some() {
+            let why = if world.hung_tasks().contains(&t) && lost != Some(t) {
+                "hung by plan"
+            } else if lost.is_some() {
                 "lost wake-up"
             } else if budget_exhausted {
                 "step budget exhausted"
